@@ -198,6 +198,16 @@ def make_model(name: str, seed: int, dtype: torch.dtype) -> torch.nn.Module:
             torch.nn.Linear(5, 4, bias=True), Act(),
             torch.nn.Linear(4, 2, bias=False),
         )
+    elif name == 'bigconv':
+        # a large feature map (batch 8 x 96 x 96 = 73 728 patch rows) followed
+        # by a STOCHASTIC layer: K-FAC's hooks must not consume the global
+        # random state
+        m = torch.nn.Sequential(
+            torch.nn.Conv2d(1, 2, kernel_size=3, padding=1),
+            torch.nn.Dropout(0.5), Act(),
+            torch.nn.AdaptiveAvgPool2d(4), torch.nn.Flatten(),
+            torch.nn.Linear(32, 4),
+        )
     elif name == 'ndt':
         # N-d linear whose output is TRANSPOSED before use (attention style):
         # the gradient w.r.t. its output reaches the hook non-contiguous
@@ -249,12 +259,12 @@ def make_model(name: str, seed: int, dtype: torch.dtype) -> torch.nn.Module:
 
 def in_shape(name: str) -> tuple[int, ...]:
     return {'mlp3': (4,), 'mlp2': (3,), 'mlp2nb': (3,), 'conv': (2, 4, 4),
-            'mlp4': (4,), 'ndt': (3, 4), 'wide': (32,), 'featcls': (3,), 'conv2': (2, 5, 4), 'nd': (3, 4), 'mixb': (3,), 'eq': (4,), 'conv3': (2, 4, 4)}[name]
+            'mlp4': (4,), 'bigconv': (1, 96, 96), 'ndt': (3, 4), 'wide': (32,), 'featcls': (3,), 'conv2': (2, 5, 4), 'nd': (3, 4), 'mixb': (3,), 'eq': (4,), 'conv3': (2, 4, 4)}[name]
 
 
 def out_shape(name: str) -> tuple[int, ...]:
     return {'mlp3': (2,), 'mlp2': (3,), 'mlp2nb': (2,), 'conv': (4,),
-            'mlp4': (2,), 'ndt': (5, 2), 'wide': (8,), 'featcls': (2,), 'conv2': (4,), 'nd': (3, 2), 'mixb': (2,), 'eq': (4,), 'conv3': (4,)}[name]
+            'mlp4': (2,), 'bigconv': (4,), 'ndt': (5, 2), 'wide': (8,), 'featcls': (2,), 'conv2': (4,), 'nd': (3, 2), 'mixb': (2,), 'eq': (4,), 'conv3': (4,)}[name]
 
 
 def make_batch(cfg: Config, seed: int, rank: int, it: int, mb: int,
